@@ -152,10 +152,13 @@ theorem numOperands_refines (a b : Val) (errA errB : Sig) :
        | _, _ => .error errA) := by
   cases a <;> cases b <;> rfl
 
-/-- `delAt`: the backing array the model writes is the one the site computes -/
+/-- `delAt` (after the add/del repair, fixes/C05-add-del-new-list.patch): a NEW list holding `argList[:i]` and
+    `argList[i+1:]`; no existing backing array is written any more (`Site.del` above still describes the slicing of
+    the code before that repair) -/
 theorem delAt_backing (r l i : Nat) (s : St) :
     (delAt r l i).run.run s =
-      (.ok (Val.list r (l - 1)), { s with lists := s.lists.setIfInBounds r (List.take i (s.lists.getD r []) ++ List.drop (i + 1) (List.take l (s.lists.getD r [])) ++ List.drop (l - 1) (s.lists.getD r [])) }) := rfl
+      (.ok (Val.list s.lists.size (List.take i (List.take l (s.lists.getD r [])) ++ List.drop (i + 1) (List.take l (s.lists.getD r []))).length),
+       { s with lists := s.lists.push (List.take i (List.take l (s.lists.getD r [])) ++ List.drop (i + 1) (List.take l (s.lists.getD r []))) }) := rfl
 
 /-- `goEq` on operands that Go's `==` can compare (no opaque model value): the comparable branch of valuesEqual -/
 theorem valuesEqual_refines (a b : Val) (deep : Bool) (h : (sameDyn a b && uncomparable a) = false) :
